@@ -7,7 +7,7 @@ from statics_lib import hx
 import render_lib
 
 IDENTS = ["a", "b", "page", "item_list", "x1", "Foo", "_p", "mod_", "deep", "z9", "page_html", "a_xml", "a_xml_old", "x1_svg", "b_html_"]
-DIRN = ["sub", "admin", "x", "parts", "a", "deep", "_d", "m2"]
+DIRN = ["sub", "admin", "x", "parts", "a", "deep", "_d", "m2", "admin_pages", "temp", "subs", "template"]
 SUFFIX = [".rs.html", ".rs.svg", ".rs.xml"]
 
 def model_vs_impl(chk, rs, disagree, what=("fs", "out", "writes")):
@@ -67,9 +67,9 @@ def gen_tree(rng, depth=4, broken_p=0.12, counter=None):
                 else:
                     out.append((rel + stem + suf, "tmpl", "@()\nM%d;" % counter[0]))
             elif k < 0.75:
-                nm = rng.choice(["readme.txt", "notes.md", "x.rs", "y.rs.htm", "z.html", "w.rs.html.bak", ".hidden", "Makefile", "a.rs.HTML", "b.RS.html"])
+                nm = rng.choice(["readme.txt", "notes.md", "x.rs", "y.rs.htm", "z.html", "w.rs.html.bak", ".hidden", "Makefile", "a.rs.HTML", "b.RS.html", "page.rs.html~", "draft.rs.svg.orig", "k.rs.xml.rs", "rs.html"])
                 if nm in used: continue
-                used.add(nm); out.append((rel + nm, "other", "@(this is not a template"))
+                used.add(nm); out.append((rel + nm, "other", rng.choice(["@(this is not a template", "@()\nnot a template name, but well-formed", "@(a: u8)\n@a"])))
             elif d > 0:
                 dn = rng.choice(DIRN)
                 if dn in used: continue
@@ -207,6 +207,7 @@ def edit_history(rng, length):
     """returns (initial steps, list of edit step-lists)"""
     entries = gen_tree(rng, depth=2, broken_p=0.1)
     init = tree_steps(entries) + [('M', 'st'), ('W', 'st/a.css', 'a{}'), ('W', 'st/b.js', 'b')]
+    if rng.random() < 0.5: init += [('W', 'st/bl\u00e5b\u00e4r.css', 'b{}'), ('W', 'st/\u65e5\u672c.png', 'p')]
     if rng.random() < 0.5:
         # outputs larger than 8 / 16 KiB: a long template and several dozen static files
         init += [('W', 't/big.rs.html', "@()\n" + "<p>a paragraph of literal text, long enough to matter &amp; more</p>\n" * rng.choice([60, 140, 300]))]
@@ -413,6 +414,27 @@ def run_c17(pid, tier):
                 p = p.decode("utf8", "replace")
                 if not any(p == a or p.startswith(a + "/") for a in ann):
                     disagree.append((r["key"], "model read %s not covered by the implementation's announcements" % p, str(ann), "")); break
+    # stylesheets that pull in other files (@import / @use of partials, nested): every file the compiler opened influenced the css.
+    # Implementation against the oracle only (the model takes the compiled css, and what rsass read, as given).
+    sscen = []; sneed = []
+    for variant in range(4 if tier == "quick" else 12):
+        main = ['@import "part";\na{b:1}', '@use "part";\na{b:1}', '@import "sub/deep";\n@import "part";\na{b:$c}', '@import "part", "sub/deep";'][variant % 4]
+        files = {"scss/main.scss": main, "scss/_part.scss": "$c: 2;\np{q:$c}", "scss/sub/_deep.scss": "$c: 3;\nd{e:f}", "scss/unused.scss": "u{v:w}"}
+        need = ["scss/main.scss", "scss/_part.scss"] + (["scss/sub/_deep.scss"] if "deep" in main else [])
+        steps = [('W', p0, c0) for p0, c0 in files.items()] + [('W', 't/x.rs.html', '@()\nx')]
+        prog = ([('c', 't')] if variant % 2 else []) + [('s',), ('S', 'scss/main.scss', "", b"?")]
+        sscen.append(steps + [('R', prog), ('R', prog)]); sneed.append(need)
+    for need, r in zip(sneed, run_keyed(sscen)):
+        for ri, run in enumerate(r["runs"][:2]):
+            chk.count(r["key"].encode() + b"#s%d" % ri, True)
+            base = r["base"].decode()
+            ann = [l[len("cargo:rerun-if-changed="):] for l in run["out"].decode("utf8", "replace").split("\n") if l.startswith("cargo:rerun-if-changed=")]
+            rel = [os.path.normpath(a[len(base) + 1:]) if a.startswith(base + "/") else a for a in ann]
+            if run["status"] != "ok":
+                oracle_fail.append((r["key"], "a stylesheet with partials does not compile: %s" % run["status"], None)); break
+            miss = [p0 for p0 in need if not any(p0 == a or p0.startswith(a + "/") for a in rel)]
+            if miss:
+                oracle_fail.append((r["key"], "file %s was read by the sass compiler (it is part of the css) but no cargo:rerun-if-changed line covers it in run %d (announced: %s)" % (miss[0], ri + 1, rel), None)); break
     for s in scen[:1]: chk.sample(dict(steps=[str(x)[:90] for x in s[-6:]]))
     chk.notes["influencing_inputs_checked"] = kinds
     chk.cov["rule"] = ("random template trees plus nested static directories and build-script programs over compile_templates, add_file, add_files, add_file_as, add_files_as (with sub-directories), add_sass_file; "
@@ -446,6 +468,13 @@ def run_c18(pid, tier):
         names = rng.sample(["a.css", "b.js", "c-d.png", "e.f.txt", "g_h.woff", "0.ico"], rng.randint(2, 5))
         p1 = [('s',)] + [('d', x, x.encode()) for x in names]
         p2 = [('s',)] + [('d', x, x.encode()) for x in sorted(names, reverse=True)]
+        if rng.random() < 0.5 and len(names) >= 2:
+            # the same set of published names from source paths whose order differs from the order of the names
+            n1, n2 = names[0], names[1]
+            sa = [('W', 'p/x/' + n1, n1), ('W', 'p/y/' + n2, n2), ('W', 'q/9.bin', 'nine'), ('W', 'q/0.bin', 'zero')] + sa
+            sb = [('W', 'p/y/' + n1, n1), ('W', 'p/x/' + n2, n2), ('W', 'q/9.bin', 'zero'), ('W', 'q/0.bin', 'nine')] + sb
+            p1 = [('s',), ('f', 'p/x/' + n1), ('f', 'p/y/' + n2), ('a', 'q/9.bin', 'to/a.bin'), ('a', 'q/0.bin', 'to/b.bin')] + [('d', x, x.encode()) for x in names[2:]]
+            p2 = [('s',), ('f', 'p/x/' + n2), ('f', 'p/y/' + n1), ('a', 'q/0.bin', 'to/a.bin'), ('a', 'q/9.bin', 'to/b.bin')] + [('d', x, x.encode()) for x in names[2:]]
         sa[-1] = ('R', [('c', 't')] + p1); sb[-1] = ('R', [('c', 't')] + p2)
         # (e) into an OUT_DIR that already holds a longer (then: a different, equally long) output under the same name
         se = [('W', 't/' + name, src + "<p>a longer earlier version of this template</p>\n" * 3), ('R', [('c', 't')]), ('W', 't/' + name, src[:-1] + "#" if src else "#"), ('R', [('c', 't')]), ('W', 't/' + name, src), ('R', [('c', 't')])]
@@ -453,7 +482,9 @@ def run_c18(pid, tier):
         bad = [(rng.choice(["a0", "m5", "zz", "B", "_q", "k"]) + "%d" % k + rng.choice(SUFFIX), rng.choice(["@(oops", "@()@if {", "no declaration", "@()@", "@()@* open"])) for k in range(4)]
         sf = [('W', 't/' + f, c) for f, c in bad[:2]] + [('W', 't/' + name, src)] + [('W', 't/' + f, c) for f, c in bad[2:]] + [('R', [('c', 't')])]
         # (g) the same file name in the parent, a child, a grandchild and a cousin directory
-        sg = [('W', 't/' + name, src), ('W', 't/sub/' + name, src), ('W', 't/sub/deep/' + name, src), ('W', 't/other/' + name, src), ('W', 't/other/sub/' + name, src), ('R', [('c', 't')])]
+        sg = [('W', 't/' + name, src), ('W', 't/sub/' + name, src), ('W', 't/sub/deep/' + name, src), ('W', 't/other/' + name, src), ('W', 't/other/sub/' + name, src),
+              # sibling directories whose names are prefixes of one another, and of the word `templates`
+              ('W', 't/adm/' + name, src), ('W', 't/adm_pages/' + name, src), ('W', 't/temp/' + name, src), ('W', 't/sub/su/' + name, src), ('R', [('c', 't')])]
         scen += [sa, sb, sc, sd, se, sf, sg]; meta.append((name, src, sib, len(scen) - 7))
     rs = run_keyed(scen)
     # the same scenarios again from another cwd, with another environment and locale
@@ -472,9 +503,14 @@ def run_c18(pid, tier):
         # (g): five copies in five directories, each with its own declaration
         mods, fn = fn_path(name)
         gfiles = snap_files(rs[s0 + 6]["runs"][0]["after"])
-        for d in ["", "sub/", "sub/deep/", "other/", "other/sub/"]:
+        for d in ["", "sub/", "sub/deep/", "other/", "other/sub/", "adm/", "adm_pages/", "temp/", "sub/su/"]:
             tf = gfiles.get(("templates/" + d + "template_%s.rs" % fn).encode())
             mf = gfiles.get(("templates/" + d + "mod.rs").encode() if d else b"templates.rs", b"")
+            if d:
+                up = d.rstrip("/").rsplit("/", 1)
+                pf = gfiles.get(("templates/" + up[0] + "/mod.rs").encode() if len(up) == 2 else b"templates.rs", b"")
+                if ("pub mod %s;" % up[-1]).encode() not in pf and outs[0] is not None:
+                    oracle_fail.append((rs[s0 + 6]["key"], "the directory %r of the template tree is not declared `pub mod` in its parent module" % d, pf[-400:].decode("utf8", "replace"))); break
             if tf is None or outs[0] is None or tf != outs[0] or ("mod template_%s;" % fn).encode() not in mf:
                 if outs[0] is not None:
                     oracle_fail.append((rs[s0 + 6]["key"], "the template %s placed in directory %r of a tree that holds the same file name in other directories is %s" %
